@@ -43,6 +43,7 @@ def main():
                        if c.__module__.startswith('pytableaux.logics.')],
             closure=[r.name for r in logic.Rules.closure],
             groups=[[r.name for r in g] for g in logic.Rules.groups],
+            has_designation=any(getattr(r, 'designation', None) is not None for g in logic.Rules.groups for r in g),
         )
         tables = {}
         for o in opers:
